@@ -269,7 +269,7 @@ def run_one(ck, prog):
                         eintr_edges.add((e.src, e.dst))
                     if fct[0] == "variant" and str(fct[2]) == "EINTR":
                         eintr_edges.add((e.src, e.dst))
-                    if fct[0] == "truth" and fct[2] is True and "EINTR" in canon(fct[1]):
+                    if fct[0] == "truth" and fct[2] is True and mentions(fct[1], ctx.prov, lambda z: z[0] == "const" and z[2] and "EINTR" in z[2]):
                         eintr_edges.add((e.src, e.dst))
         r = cfg.reachable_from(nxt, avoid_edges=eintr_edges) if nxt is not None else set()
         ck.ob("C13.4", "read-retry-only-on-eintr", reads[0] not in r and ctx.cfg.in_cycle(reads[0]), fn=DO_SPAWN, site=ctx.site(reads[0]),
